@@ -78,6 +78,7 @@ Hypothesis Hgs : forallb dgroup_wf gs = true.
 Hypothesis Hasc : ascending (-1) (map fst gs) = true.
 Hypothesis Hsz : serialized_size ver gs stored <= i32_max.
 Hypothesis Hst : Forall (fun s => 0 <= snd s <= i32_max) stored.
+Hypothesis Hstb : Forall (fun s => bytes_ok (fst s) = true) stored.
 
 Definition T := titems gs.
 Definition blens := map (fun s : bytes * Z => zlen (fst s)) stored.
@@ -113,6 +114,14 @@ Proof.
   pose proof (zlen_nonneg gs). pose proof (zlen_nonneg T). pose proof (zlen_nonneg stored).
   pose proof (sum_tsize_nonneg T). pose proof (sum_z_nonneg blens blens_nonneg).
   unfold rt_si, rt_sd, rt_total, i32_max in *. repeat split; auto.
+Qed.
+
+Lemma rt_small : zlen gs <= 2147483647 /\ zlen T <= 2147483647 /\ zlen stored <= 2147483647
+  /\ rt_si <= 2147483647 /\ rt_sd <= 2147483647.
+Proof.
+  destruct rt_bounds as (B1 & B2 & B3 & B4 & B5 & B6). pose proof rt_total_eq as Ht.
+  assert (Hv4 : 0 <= (if 4 <=? ver then 4 * zlen stored else 0)) by (destruct (4 <=? ver); lia).
+  repeat split; lia.
 Qed.
 
 Lemma rt_si_mod4 : rt_si mod 4 = 0.
@@ -155,24 +164,43 @@ Proof.
   unfold dgroup_wf, is_u16 in Hg0. lia.
 Qed.
 
+Lemma zlen_data : zlen (flat_map fst stored) = rt_sd.
+Proof.
+  unfold rt_sd, blens. clear. induction stored as [|s l IH]; [reflexivity|].
+  cbn [flat_map map]. rewrite zlen_app, IH. unfold sum_z. cbn [fold_right]. reflexivity.
+Qed.
+
+Lemma zlen_serialized : zlen (serialize_stored ver crude gs stored) = rt_total.
+Proof.
+  destruct rt_bounds as (B1 & B2 & B3 & B4 & B5 & B6). pose proof rt_total_eq as Ht.
+  pose proof (zlen_W T) as HWT. fold rt_si in HWT.
+  unfold serialize_stored. cbv zeta. rewrite raw_eq. fold T.
+  rewrite !zlen_app, zlen_enc, !zlen_app, !zlen_cons, zlen_nil.
+  rewrite zlen_type_table, !zlen_offsets_from, !zlen_map, <- (zlen_titems gs). fold T.
+  rewrite zlen_data. change (zlen magic_data) with 4. rewrite Ht.
+  destruct (4 <=? ver); rewrite ?zlen_map; change (zlen (@nil Z)) with 0; unfold bytes in *; lia.
+Qed.
+
 Lemma parse_serialized : reader_parse (serialize_stored ver crude gs stored) = Ok rt_reader.
 Proof.
   destruct rt_bounds as (B1 & B2 & B3 & B4 & B5 & B6). pose proof rt_total_eq as Ht.
   pose proof rt_hdr_ok as Hh. pose proof rt_total_size as Hts.
   assert (Hv4 : 0 <= (if 4 <=? ver then 4 * zlen stored else 0)) by (destruct (4 <=? ver); lia).
+  pose proof zlen_serialized as Hfl. revert Hfl.
   unfold serialize_stored. cbv zeta.
   rewrite sizes_eq, raw_eq. fold T. change (map (fun s : list Z * Z => zlen (fst s)) stored) with blens. fold rt_si. fold rt_sd.
   rewrite <- (zlen_titems gs). fold T.
   set (uds := if 4 <=? ver then map snd stored else []).
   assert (Htab : 36 + 4 * zlen (type_table gs 0 ++ offsets_from (map tsize T) 0 ++ offsets_from blens 0 ++ uds) + rt_si + rt_sd = rt_total).
   { rewrite !zlen_app, zlen_type_table, !zlen_offsets_from, zlen_map. unfold blens at 1. rewrite zlen_map.
-    rewrite Ht. unfold uds. destruct (4 <=? ver); rewrite ?zlen_map, ?zlen_nil; lia. }
+    rewrite Ht. unfold uds. destruct (4 <=? ver); rewrite ?zlen_map; change (zlen (@nil Z)) with 0; unfold bytes in *; lia. }
   rewrite Htab. fold rt_size.
   rewrite !enc_words_app. rewrite <- !app_assoc.
   change (enc_words [ver; rt_size; rt_size - rt_sd; zlen gs; zlen T; zlen stored; rt_si; rt_sd])
     with (enc_words [h_version rt_hdr; h_size rt_hdr; h_swaplen rt_hdr; h_num_item_types rt_hdr; h_num_items rt_hdr;
                      h_num_data rt_hdr; h_size_items rt_hdr; h_size_data rt_hdr]).
-  unfold reader_parse. rewrite (header_read_enc rt_hdr _ Hh). cbn [bind].
+  match goal with |- zlen ?b = _ -> _ => set (bs := b) end. intros Hfl.
+  unfold reader_parse. unfold bs at 1. rewrite (header_read_enc rt_hdr _ Hh). cbn [bind].
   rewrite (check_size_ok rt_hdr crude Hh); [|rewrite Hts; exact Hsz|rewrite Hts; reflexivity|reflexivity].
   cbn [bind]. cbn [rt_hdr h_version h_num_item_types h_num_items h_num_data h_size_items h_size_data].
   assert (Hvsel : (if ver =? 3 then Ok V3 else if ver =? 4 then Ok (if crude && negb (zlen stored =? 0) then V4Crude else V4)
@@ -201,29 +229,21 @@ Proof.
   { apply W_i32; [apply T_wf|fold rt_si; lia]. }
   assert (Hq : rt_si / 4 = zlen (W T)).
   { unfold rt_si. rewrite <- zlen_W. rewrite Z.mul_comm. apply Z.div_mul. lia. }
+  rewrite Hts.
   assert (Hrest : forall cur, (let* nwords := rsom (as_usize rt_si) 1 4 in
              let* r5 := read_words 1 nwords (enc_words (W T) ++ flat_map fst stored) in
              let (items_raw, cur5) := r5 in
-             if zlen (serialize_stored ver crude gs stored) <? rt_total then Err TooShort
+             if zlen bs <? rt_total then Err TooShort
              else Ok (cur items_raw cur5)) = (Ok (cur (W T) (flat_map fst stored)) : res err reader)).
   { intros cur. rewrite as_usize_id by (unfold two64; lia).
     rewrite rsom_1_4_ok by (unfold two64; try apply rt_si_mod4; lia). cbn [bind]. rewrite Hq.
     pose proof (zlen_nonneg (W T)) as HWn. pose proof (zlen_W T) as HWT. fold rt_si in HWT.
     rewrite read_words_enc; [|exact Hraw|lia|lia|unfold i32_max; lia]. cbn [bind].
-    assert (Hfl : zlen (serialize_stored ver crude gs stored) = rt_total).
-    { assert (Hdl : zlen (flat_map fst stored) = rt_sd).
-      { unfold rt_sd, blens. clear. induction stored as [|s l IH]; [reflexivity|].
-        cbn [flat_map map]. rewrite zlen_app, IH. unfold sum_z. cbn [fold_right]. reflexivity. }
-      unfold serialize_stored. cbv zeta. rewrite raw_eq. fold T.
-      rewrite !zlen_app, zlen_enc, !zlen_app, !zlen_cons, zlen_nil.
-      rewrite zlen_type_table, !zlen_offsets_from, !zlen_map, <- (zlen_titems gs). fold T.
-      rewrite Hdl. change (zlen magic_data) with 4. rewrite Ht.
-      destruct (4 <=? ver); rewrite ?zlen_map; change (zlen (@nil Z)) with 0. all: unfold bytes in *; lia. }
     rewrite Hfl. rewrite Z.ltb_irrefl. reflexivity. }
   unfold uds. destruct (4 <=? ver) eqn:E4.
   - assert (Hui : all_i32 (map snd stored)).
     { unfold all_i32. apply Forall_forall. intros x Hx. apply in_map_iff in Hx. destruct Hx as (s & <- & Hs).
-      rewrite Forall_forall in Hst. specialize (Hst s Hs). unfold i32_max in Hst. apply is_i32_iff. lia. }
+      pose proof Hst as Hst'. rewrite Forall_forall in Hst'. specialize (Hst' s Hs). unfold i32_max in Hst'. apply is_i32_iff. lia. }
     rewrite read_words_enc; [|exact Hui|rewrite zlen_map; lia|lia|unfold i32_max; lia].
     cbn [bind fst snd].
     rewrite (Hrest (fun items_raw cur5 => {| r_hdr := rt_hdr; r_item_types := item_types_of (type_table gs 0);
@@ -237,4 +257,413 @@ Proof.
     unfold rt_reader. rewrite E4, item_types_of_table. reflexivity.
 Qed.
 
+
+(* ---------- check() accepts it ---------- *)
+Lemma serialized_bytes_ok : bytes_ok (serialize_stored ver crude gs stored) = true.
+Proof.
+  unfold serialize_stored. cbv zeta. apply bytes_ok_app. split; [reflexivity|].
+  apply bytes_ok_app. split; [apply enc_words_ok|].
+  clear -Hstb. induction Hstb as [|s l Hs Hl IH]; [reflexivity|]. cbn [flat_map]. apply bytes_ok_app. auto.
+Qed.
+
+Lemma rt_pre : reader_pre rt_reader.
+Proof. exact (reader_parse_pre _ _ serialized_bytes_ok parse_serialized). Qed.
+
+Lemma skipn_zlen_app {A} (a b : list A) : skipn (Z.to_nat (zlen a)) (a ++ b) = b.
+Proof.
+  unfold zlen. rewrite Nat2Z.id, skipn_app, Nat.sub_diag, skipn_all. reflexivity.
+Qed.
+
+Lemma sum_pre_eq pre : sum_z (map tsize pre) = 4 * zlen (W pre).
+Proof. symmetry. apply zlen_W. Qed.
+
+Lemma T_split_bound pre ti post : T = pre ++ ti :: post ->
+  sum_z (map tsize pre) + tsize ti <= rt_si /\ 0 <= sum_z (map tsize pre).
+Proof.
+  intros HT. unfold rt_si. rewrite HT, map_app, sum_z_app. cbn [map]. unfold sum_z at 3. cbn [fold_right].
+  fold (sum_z (map tsize post)). pose proof (sum_tsize_nonneg post). pose proof (sum_tsize_nonneg pre). lia.
+Qed.
+
+Lemma item_header_rt pre ti post : T = pre ++ ti :: post ->
+  item_header rt_reader (zlen pre) = Ok (i32_of (fst ti * 65536 + fst (snd ti)), 4 * zlen (snd (snd ti))).
+Proof.
+  intros HT. destruct (T_split_bound pre ti post HT) as [Hb Hb0]. pose proof (tsize_pos ti) as Hts.
+  pose proof (zlen_nonneg pre) as Hpre.
+  assert (Hz : znth (r_item_offsets rt_reader) (zlen pre) = Some (sum_z (map tsize pre))).
+  { cbn [rt_reader r_item_offsets]. rewrite HT, map_app. cbn [map].
+    rewrite <- (zlen_map tsize pre). rewrite znth_offsets_from. f_equal. }
+  assert (H4 : sum_z (map tsize pre) mod 4 = 0).
+  { rewrite sum_pre_eq, Z.mul_comm. apply Z.mod_mul. lia. }
+  destruct (item_header_ok rt_reader (zlen pre) _ rt_pre Hpre Hz Hb0 H4) as (a & b & Hih & Hf & _).
+  { cbn [rt_reader r_hdr rt_hdr h_size_items]. lia. }
+  rewrite Hih. f_equal.
+  unfold raw_at in Hf. cbn [rt_reader r_items_raw] in Hf.
+  rewrite sum_pre_eq in Hf. rewrite Z.mul_comm, Z.div_mul in Hf by lia.
+  rewrite HT, W_app in Hf. rewrite skipn_zlen_app in Hf.
+  unfold W in Hf. cbn [flat_map] in Hf. unfold tw at 1, item_words in Hf. cbn [app firstn] in Hf.
+  inversion Hf. reflexivity.
+Qed.
+
+Lemma T_item_wf pre ti post : T = pre ++ ti :: post -> titem_wf ti.
+Proof.
+  intros HT. pose proof T_wf as Hwf. rewrite HT in Hwf. apply Forall_app in Hwf. destruct Hwf as [_ Hwf].
+  inversion Hwf; assumption.
+Qed.
+
+Lemma check_items_rt : forall suf pre fuel, T = pre ++ suf -> (length suf < fuel)%nat ->
+  check_items fuel rt_reader (zlen pre) (sum_z (map tsize pre)) = Ok rt_si.
+Proof.
+  destruct rt_bounds as (B1 & B2 & B3 & B4 & B5 & B6). destruct rt_small as (S1 & S2 & S3 & S4 & S5).
+  induction suf as [|ti suf IH]; intros pre fuel HT Hfuel.
+  - rewrite app_nil_r in HT. subst pre. destruct fuel; [lia|]. cbn [check_items].
+    cbn [rt_reader r_hdr rt_hdr h_num_items]. rewrite as_usize_small by lia.
+    rewrite Z.leb_refl. reflexivity.
+  - destruct fuel as [|fuel]; [cbn in Hfuel; lia|]. cbn [check_items].
+    cbn [rt_reader r_hdr rt_hdr h_num_items h_size_items]. fold rt_reader.
+    destruct (T_split_bound pre ti suf HT) as [Hb Hb0]. pose proof (tsize_pos ti) as Hts.
+    pose proof (zlen_nonneg pre) as Hpre. pose proof (zlen_nonneg suf) as Hsuf.
+    assert (HlT : zlen T = zlen pre + 1 + zlen suf) by (rewrite HT, zlen_app, zlen_cons; lia).
+    rewrite (as_usize_small (zlen T)) by lia.
+    destruct (zlen T <=? zlen pre) eqn:E0; [apply Z.leb_le in E0; lia|].
+    assert (Hz : znth (r_item_offsets rt_reader) (zlen pre) = Some (sum_z (map tsize pre))).
+    { cbn [rt_reader r_item_offsets]. rewrite HT, map_app. cbn [map].
+      rewrite <- (zlen_map tsize pre). rewrite znth_offsets_from. f_equal. }
+    rewrite (index_of_znth _ _ _ _ Hpre Hz). cbn [bind].
+    destruct (sum_z (map tsize pre) <? 0) eqn:E1; [apply Z.ltb_lt in E1; lia|].
+    rewrite (as_usize_small (sum_z (map tsize pre))) by lia. rewrite Z.eqb_refl. cbn [negb].
+    rewrite usize_add_ok by (unfold two64; lia). cbn [bind].
+    rewrite (as_usize_small rt_si) by lia.
+    destruct (rt_si <? sum_z (map tsize pre) + 8) eqn:E2; [apply Z.ltb_lt in E2; lia|].
+    rewrite (item_header_rt pre ti suf HT). cbn [bind snd].
+    pose proof (zlen_nonneg (snd (snd ti))) as Hd.
+    assert (Hsz4 : tsize ti = 8 + 4 * zlen (snd (snd ti))) by reflexivity.
+    destruct (4 * zlen (snd (snd ti)) <? 0) eqn:E3; [apply Z.ltb_lt in E3; lia|].
+    rewrite (as_usize_small (4 * zlen (snd (snd ti)))) by lia.
+    rewrite (Z.mul_comm 4), Z.mod_mul by lia. cbn [Z.eqb negb].
+    rewrite usize_add_ok by (unfold two64; lia). cbn [bind].
+    destruct (rt_si <? sum_z (map tsize pre) + 8 + zlen (snd (snd ti)) * 4) eqn:E4; [apply Z.ltb_lt in E4; lia|].
+    specialize (IH (pre ++ [ti]) fuel).
+    rewrite zlen_app, zlen_cons, zlen_nil, map_app, sum_z_app in IH. cbn [map] in IH.
+    unfold sum_z at 2 in IH. cbn [fold_right] in IH.
+    replace (zlen pre + (1 + 0)) with (zlen pre + 1) in IH by lia.
+    replace (sum_z (map tsize pre) + (tsize ti + 0)) with (sum_z (map tsize pre) + 8 + zlen (snd (snd ti)) * 4) in IH by lia.
+    apply IH; [rewrite <- app_assoc; exact HT|cbn [length] in Hfuel; lia].
+Qed.
+
+(* data offsets *)
+Definition bl (l : list (bytes * Z)) : list Z := map (fun s : bytes * Z => zlen (fst s)) l.
+
+Lemma bl_nonneg l : 0 <= sum_z (bl l).
+Proof. apply sum_z_nonneg. apply Forall_forall. intros x Hx. apply in_map_iff in Hx. destruct Hx as (s & <- & _). apply zlen_nonneg. Qed.
+
+Lemma check_data_rt : forall suf pre fuel previous, stored = pre ++ suf -> (length suf < fuel)%nat ->
+  previous <= sum_z (bl pre) ->
+  check_data fuel rt_reader (zlen pre) previous = Ok tt.
+Proof.
+  destruct rt_bounds as (B1 & B2 & B3 & B4 & B5 & B6). destruct rt_small as (S1 & S2 & S3 & S4 & S5).
+  induction suf as [|s suf IH]; intros pre fuel previous HS Hfuel Hprev.
+  - rewrite app_nil_r in HS. subst pre. destruct fuel; [lia|]. cbn [check_data].
+    cbn [rt_reader r_hdr rt_hdr h_num_data]. rewrite as_usize_small by lia. rewrite Z.leb_refl. reflexivity.
+  - destruct fuel as [|fuel]; [cbn in Hfuel; lia|]. cbn [check_data].
+    cbn [rt_reader r_hdr rt_hdr h_num_data h_size_data r_uds r_data_offsets]. fold rt_reader.
+    pose proof (zlen_nonneg pre) as Hpre. pose proof (zlen_nonneg suf) as Hsuf.
+    assert (HlS : zlen stored = zlen pre + 1 + zlen suf) by (rewrite HS, zlen_app, zlen_cons; lia).
+    rewrite (as_usize_small (zlen stored)) by lia.
+    destruct (zlen stored <=? zlen pre) eqn:E0; [apply Z.leb_le in E0; lia|].
+    assert (Hsd : rt_sd = sum_z (bl pre) + zlen (fst s) + sum_z (bl suf)).
+    { unfold rt_sd, blens. rewrite HS, map_app, sum_z_app. cbn [map]. unfold sum_z at 2. cbn [fold_right].
+      fold (sum_z (map (fun s0 : bytes * Z => zlen (fst s0)) suf)). unfold bl. lia. }
+    pose proof (bl_nonneg pre). pose proof (bl_nonneg suf). pose proof (zlen_nonneg (fst s)).
+    assert (Hu : (match (if 4 <=? ver then Some (map snd stored) else None) with
+                  | Some uds => let* u := index uds (zlen pre) site_index_uds in if u <? 0 then Err Malformed else Ok tt
+                  | None => Ok tt end) = (Ok tt : res err unit)).
+    { destruct (4 <=? ver); [|reflexivity].
+      assert (Hzu : znth (map snd stored) (zlen pre) = Some (snd s)).
+      { rewrite HS, map_app. cbn [map]. rewrite <- (zlen_map snd pre). apply znth_app_r. }
+      rewrite (index_of_znth _ _ _ _ Hpre Hzu). cbn [bind].
+      pose proof Hst as Hst'. rewrite HS in Hst'. apply Forall_app in Hst'. destruct Hst' as [_ Hst'].
+      inversion Hst' as [|? ? Hs0 _]; subst.
+      destruct (snd s <? 0) eqn:E; [apply Z.ltb_lt in E; lia|reflexivity]. }
+    rewrite Hu. cbn [bind].
+    assert (Hz : znth (offsets_from blens 0) (zlen pre) = Some (sum_z (bl pre))).
+    { unfold blens. rewrite HS, map_app. cbn [map]. unfold bl.
+      rewrite <- (zlen_map (fun s0 : bytes * Z => zlen (fst s0)) pre). rewrite znth_offsets_from. f_equal. }
+    rewrite (index_of_znth _ _ _ _ Hpre Hz). cbn [bind].
+    destruct (sum_z (bl pre) <? 0) eqn:E1; [apply Z.ltb_lt in E1; lia|].
+    destruct (rt_sd <? sum_z (bl pre)) eqn:E2; [apply Z.ltb_lt in E2; lia|]. cbn [orb].
+    destruct (sum_z (bl pre) <? previous) eqn:E3; [apply Z.ltb_lt in E3; lia|].
+    specialize (IH (pre ++ [s]) fuel (sum_z (bl pre))).
+    rewrite zlen_app, zlen_cons, zlen_nil in IH. replace (zlen pre + (1 + 0)) with (zlen pre + 1) in IH by lia.
+    apply IH; [rewrite <- app_assoc; exact HS|cbn [length] in Hfuel; lia|].
+    unfold bl. rewrite map_app, sum_z_app. cbn [map]. unfold sum_z at 3. cbn [fold_right]. lia.
+Qed.
+
+(* the type table *)
+Lemma existsb_seen tid seen pv : Forall (fun t2 => t_type_id t2 <= pv) seen -> pv < tid ->
+  existsb (fun t2 => t_type_id t2 =? tid) seen = false.
+Proof.
+  induction 1 as [|t l Ht Hl IH]; intros Hlt; [reflexivity|]. cbn [existsb].
+  destruct (t_type_id t =? tid) eqn:E; [apply Z.eqb_eq in E; lia|]. cbn [orb]. apply IH. exact Hlt.
+Qed.
+
+Lemma check_types_rt ni : 0 <= ni <= 2147483647 -> forall l s prev seen pv,
+  pv = match prev with Some p => p | None => -1 end ->
+  ascending pv (map fst l) = true -> Forall (fun g : dgroup => 0 <= fst g < 65536) l ->
+  Forall (fun t2 => t_type_id t2 <= pv) seen -> 0 <= s -> s + zlen (titems l) <= ni ->
+  check_types ni (tt_records l s) s prev seen = Ok (s + zlen (titems l)).
+Proof.
+  intros Hni. induction l as [|g l IH]; intros s prev seen pv Hpv Hasc' Hl Hseen Hs Hb.
+  - cbn. f_equal. change (zlen (titems [])) with 0. lia.
+  - inversion Hl as [|? ? Hg Hl']; subst. cbn [tt_records check_types t_type_id t_start t_num].
+    cbn [map ascending] in Hasc'. apply andb_true_iff in Hasc'. destruct Hasc' as [Hlt Hasc'].
+    apply Z.ltb_lt in Hlt. rewrite zlen_titems_cons in Hb.
+    pose proof (zlen_nonneg (snd g)). pose proof (zlen_nonneg (titems l)).
+    replace (negb ((0 <=? fst g) && (fst g <? 65536))) with false by (symmetry; lia).
+    replace (match prev with Some p => negb (p <? fst g) | None => false end) with false
+      by (destruct prev; [symmetry; lia|reflexivity]).
+    replace (negb ((0 <=? zlen (snd g)) && (is_i32 (ni - s) && (zlen (snd g) <=? ni - s)))) with false
+      by (unfold is_i32, i32_min, i32_max; symmetry; lia).
+    rewrite Z.eqb_refl. cbn [negb].
+    rewrite i32_add_ok by (apply is_i32_iff; lia). cbn [bind].
+    rewrite (existsb_seen (fst g) seen (match prev with Some p => p | None => -1 end)) by assumption.
+    rewrite (IH (s + zlen (snd g)) (Some (fst g)) (seen ++ [{| t_type_id := fst g; t_start := s; t_num := zlen (snd g) |}]) (fst g));
+      auto; try lia.
+    + rewrite zlen_titems_cons. f_equal. lia.
+    + apply Forall_app. split.
+      * eapply Forall_impl; [|exact Hseen]. cbn. intros; lia.
+      * constructor; [cbn; lia|constructor].
+Qed.
+
+(* every item of a group carries the group's type *)
+Lemma check_type_items_rt tid : 0 <= tid < 65536 -> forall its (pre post : list titem) fuel,
+  T = pre ++ map (pair tid) its ++ post -> (length its < fuel)%nat ->
+  check_type_items fuel rt_reader (zlen pre) (zlen pre + zlen its) tid = Ok tt.
+Proof.
+  intros Htid. induction its as [|it its IH]; intros pre post fuel HT Hfuel.
+  - destruct fuel; [lia|]. cbn [check_type_items]. change (zlen (@nil ditem)) with 0.
+    replace (zlen pre + 0 <=? zlen pre) with true by (symmetry; apply Z.leb_le; lia). reflexivity.
+  - destruct fuel as [|fuel]; [cbn in Hfuel; lia|]. cbn [check_type_items].
+    pose proof (zlen_nonneg its). rewrite zlen_cons.
+    destruct (zlen pre + (1 + zlen its) <=? zlen pre) eqn:E0; [apply Z.leb_le in E0; lia|].
+    cbn [map app] in HT.
+    rewrite (item_header_rt pre (tid, it) (map (pair tid) its ++ post) HT). cbn [bind fst snd].
+    pose proof (T_item_wf _ _ _ HT) as (_ & Hid & _). cbn [fst snd] in Hid.
+    rewrite ih_type_id_enc by assumption. rewrite (Z.mod_small tid) by lia. rewrite Z.eqb_refl. cbn [negb].
+    specialize (IH (pre ++ [(tid, it)]) post fuel).
+    rewrite zlen_app, zlen_cons, zlen_nil in IH.
+    replace (zlen pre + (1 + 0)) with (zlen pre + 1) in IH by lia.
+    replace (zlen pre + (1 + zlen its)) with (zlen pre + 1 + zlen its) by lia.
+    apply IH; [rewrite <- app_assoc; exact HT|cbn [length] in Hfuel; lia].
+Qed.
+
+Lemma titems_app a b : titems (a ++ b) = titems a ++ titems b.
+Proof. unfold titems. apply flat_map_app. Qed.
+
+Lemma check_types_items_rt : forall l before, gs = before ++ l ->
+  check_types_items rt_reader (tt_records l (zlen (titems before))) = Ok tt.
+Proof.
+  destruct rt_bounds as (B1 & B2 & B3 & B4 & B5 & B6). destruct rt_small as (S1 & S2 & S3 & S4 & S5).
+  induction l as [|g l IH]; intros before Hgs'; [reflexivity|].
+  cbn [tt_records check_types_items t_start t_num t_type_id].
+  assert (HT : T = titems before ++ map (pair (fst g)) (snd g) ++ titems l).
+  { unfold T. rewrite Hgs', titems_app. reflexivity. }
+  pose proof (zlen_nonneg (titems before)). pose proof (zlen_nonneg (snd g)). pose proof (zlen_nonneg (titems l)).
+  assert (HlT : zlen T = zlen (titems before) + zlen (snd g) + zlen (titems l)).
+  { rewrite HT, !zlen_app, zlen_map. lia. }
+  rewrite i32_add_ok by (apply is_i32_iff; lia). cbn [bind].
+  rewrite !as_usize_small by lia.
+  assert (Hg : 0 <= fst g < 65536).
+  { pose proof gs_tids as Hgt. rewrite Hgs' in Hgt. apply Forall_app in Hgt. destruct Hgt as [_ Hgt]. inversion Hgt; assumption. }
+  rewrite (check_type_items_rt (fst g) Hg (snd g) (titems before) (titems l)).
+  - cbn [bind]. specialize (IH (before ++ [g])).
+    rewrite titems_app, zlen_app in IH. unfold titems at 2 in IH. cbn [flat_map] in IH. rewrite app_nil_r, zlen_map in IH.
+    apply IH. rewrite <- app_assoc. exact Hgs'.
+  - exact HT.
+  - cbn [rt_reader r_item_offsets]. unfold zlen in *. rewrite <- (Nat2Z.id (length (offsets_from (map tsize T) 0))).
+    fold (zlen (offsets_from (map tsize T) 0)). rewrite zlen_offsets_from, zlen_map. unfold zlen. lia.
+Qed.
+
+Lemma check_rt : reader_check rt_reader = Ok tt.
+Proof.
+  destruct rt_bounds as (B1 & B2 & B3 & B4 & B5 & B6). destruct rt_small as (S1 & S2 & S3 & S4 & S5).
+  unfold reader_check. cbv zeta. cbn [rt_reader r_hdr r_item_types rt_hdr h_num_items h_size_items]. fold rt_hdr. fold rt_reader.
+  rewrite (check_types_rt (zlen T) ltac:(lia) gs 0 None [] (-1)); try reflexivity; try lia; auto.
+  - cbn [bind]. replace (0 + zlen (titems gs) =? zlen T) with true by (symmetry; apply Z.eqb_eq; unfold T; lia).
+    cbn [negb].
+    pose proof (check_items_rt T [] (S (length (r_item_offsets rt_reader))) eq_refl) as Hci.
+    change (zlen (@nil titem)) with 0 in Hci. change (sum_z (map tsize [])) with 0 in Hci.
+    rewrite Hci.
+    + cbn [bind]. rewrite as_usize_small by lia. rewrite Z.eqb_refl. cbn [negb].
+      pose proof (check_data_rt stored [] (S (length (r_data_offsets rt_reader))) 0 eq_refl) as Hcd.
+      change (zlen (@nil (bytes * Z))) with 0 in Hcd. rewrite Hcd.
+      * cbn [bind]. exact (check_types_items_rt gs [] eq_refl).
+      * cbn [rt_reader r_data_offsets]. assert (zlen (offsets_from blens 0) = zlen stored) by (rewrite zlen_offsets_from; unfold blens; apply zlen_map).
+        unfold zlen in *. lia.
+      * cbn. lia.
+    + cbn [rt_reader r_item_offsets]. assert (zlen (offsets_from (map tsize T) 0) = zlen T) by (rewrite zlen_offsets_from; apply zlen_map).
+      unfold zlen in *. lia.
+  - apply gs_tids.
+Qed.
+
+Theorem reader_new_serialized : reader_new (serialize_stored ver crude gs stored) = Ok rt_reader.
+Proof. unfold reader_new. rewrite parse_serialized. cbn [bind]. rewrite check_rt. reflexivity. Qed.
+
+Lemma rt_inv : reader_inv rt_reader.
+Proof.
+  pose proof (reader_new_spec _ serialized_bytes_ok) as H. rewrite reader_new_serialized in H. exact H.
+Qed.
+
+
+(* ---------- what the accessors return ---------- *)
+Lemma firstn_zlen_app {A} (a b : list A) : firstn (Z.to_nat (zlen a)) (a ++ b) = a.
+Proof. unfold zlen. rewrite Nat2Z.id, firstn_app, Nat.sub_diag, firstn_all. cbn. apply app_nil_r. Qed.
+
+Definition view_triple (v : item_view) : titem := (iv_type v, (iv_id v, iv_data v)).
+
+Lemma item_rt (pre : list titem) ti post : T = pre ++ ti :: post ->
+  exists v, item rt_reader (zlen pre) = Ok v /\ view_triple v = ti /\ view_inside rt_reader v.
+Proof.
+  intros HT. destruct rt_bounds as (B1 & B2 & B3 & B4 & B5 & B6).
+  pose proof (zlen_nonneg pre) as Hpre. pose proof (zlen_nonneg post) as Hpost.
+  assert (HlT : zlen T = zlen pre + 1 + zlen post) by (rewrite HT, zlen_app, zlen_cons; lia).
+  destruct (item_spec rt_reader (zlen pre) rt_inv) as (v & a & b & Hv & Hin & Hih & Hty & Hid & Hlen & off & Hz & Hoff).
+  { cbn [rt_reader r_hdr rt_hdr h_num_items]. lia. }
+  exists v. split; [exact Hv|]. split; [|exact Hin].
+  pose proof (item_header_rt pre ti post HT) as Hih2. rewrite Hih in Hih2.
+  remember (i32_of (fst ti * 65536 + fst (snd ti))) as X eqn:HX. remember (4 * zlen (snd (snd ti))) as Y eqn:HY.
+  assert (Hab : a = X /\ b = Y) by (split; congruence). destruct Hab as [-> ->]. subst X Y. clear Hih2.
+  assert (Hz' : znth (r_item_offsets rt_reader) (zlen pre) = Some (sum_z (map tsize pre))).
+  { cbn [rt_reader r_item_offsets]. rewrite HT, map_app. cbn [map].
+    rewrite <- (zlen_map tsize pre). rewrite znth_offsets_from. f_equal. }
+  rewrite Hz' in Hz. inversion Hz; subst off. clear Hz.
+  rewrite sum_pre_eq, Z.mul_comm, Z.div_mul in Hoff by lia.
+  rewrite Z.mul_comm, Z.div_mul in Hlen by lia.
+  destruct (T_item_wf _ _ _ HT) as (Ht1 & Ht2 & _).
+  destruct Hin as (_ & _ & _ & Hdata & _).
+  cbn [rt_reader r_items_raw] in Hdata. rewrite Hoff, Hlen in Hdata.
+  pose proof (zlen_nonneg (W pre)) as HW.
+  replace (Z.to_nat (zlen (W pre) + 2)) with (Z.to_nat (zlen (W pre)) + 2)%nat in Hdata by lia.
+  rewrite <- skipn_skipn' in Hdata. rewrite HT, W_app in Hdata. rewrite skipn_zlen_app in Hdata.
+  unfold W in Hdata. cbn [flat_map] in Hdata. unfold tw at 1, item_words in Hdata. cbn [app skipn] in Hdata.
+  rewrite firstn_zlen_app in Hdata.
+  unfold view_triple. rewrite Hty, Hid, Hdata, ih_type_id_enc, ih_id_enc by assumption.
+  destruct ti as [t [i d]]. reflexivity.
+Qed.
+
+Lemma items_rt_aux : forall suf (pre : list titem) fuel, T = pre ++ suf -> (length suf < fuel)%nat ->
+  exists vs, collect_range fuel (item rt_reader) (zlen pre) (zlen T) = Ok vs
+    /\ map view_triple vs = suf /\ Forall (view_inside rt_reader) vs.
+Proof.
+  induction suf as [|ti suf IH]; intros pre fuel HT Hfuel.
+  - rewrite app_nil_r in HT. rewrite HT. destruct fuel; [lia|]. cbn [collect_range]. rewrite Z.leb_refl.
+    exists []. repeat split. constructor.
+  - destruct fuel as [|fuel]; [cbn in Hfuel; lia|]. cbn [collect_range].
+    pose proof (zlen_nonneg pre) as Hpre. pose proof (zlen_nonneg suf) as Hsuf.
+    assert (HlT : zlen T = zlen pre + 1 + zlen suf) by (rewrite HT, zlen_app, zlen_cons; lia).
+    destruct (zlen T <=? zlen pre) eqn:E0; [apply Z.leb_le in E0; lia|].
+    destruct (item_rt pre ti suf HT) as (v & Hv & Htr & Hin). rewrite Hv. cbn [bind].
+    destruct (IH (pre ++ [ti]) fuel) as (vs & Hvs & Hmap & Hall).
+    { rewrite <- app_assoc. exact HT. }
+    { cbn [length] in Hfuel. lia. }
+    rewrite zlen_app, zlen_cons, zlen_nil in Hvs. replace (zlen pre + (1 + 0)) with (zlen pre + 1) in Hvs by lia.
+    rewrite Hvs. cbn [bind]. exists (v :: vs). cbn [map]. rewrite Htr, Hmap. repeat split. constructor; assumption.
+Qed.
+
+Lemma items_rt : exists vs, items rt_reader = Ok vs /\ map view_triple vs = T /\ Forall (view_inside rt_reader) vs.
+Proof.
+  destruct rt_bounds as (B1 & B2 & B3 & B4 & B5 & B6).
+  unfold items, num_items. cbn [rt_reader r_hdr rt_hdr h_num_items]. fold rt_hdr. fold rt_reader.
+  rewrite assert_usize_ok by lia. cbn [bind].
+  apply (items_rt_aux T [] _ eq_refl).
+  cbn [rt_reader r_item_offsets]. assert (zlen (offsets_from (map tsize T) 0) = zlen T) by (rewrite zlen_offsets_from; apply zlen_map).
+  unfold zlen in *. lia.
+Qed.
+
+Lemma zlen_flat_fst l : zlen (flat_map fst l) = sum_z (bl l).
+Proof.
+  induction l as [|s l IH]; [reflexivity|]. cbn [flat_map]. unfold bl in *. cbn [map].
+  rewrite zlen_app, IH. unfold sum_z. cbn [fold_right]. reflexivity.
+Qed.
+
+Lemma read_data_rt unc pre s post : stored = pre ++ s :: post ->
+  read_data unc rt_reader (zlen pre) = if 4 <=? ver then zcase (snd s) (unc (snd s) (fst s)) else Ok (fst s).
+Proof.
+  intros HS. destruct rt_bounds as (B1 & B2 & B3 & B4 & B5 & B6).
+  pose proof (zlen_nonneg pre) as Hpre. pose proof (zlen_nonneg post) as Hpost.
+  assert (HlS : zlen stored = zlen pre + 1 + zlen post) by (rewrite HS, zlen_app, zlen_cons; lia).
+  destruct (read_data_spec unc rt_reader (zlen pre) rt_inv) as (off & len & _ & _ & Hlen0 & _ & _ & Hz & Hnext & Hrd).
+  { cbn [rt_reader r_hdr rt_hdr h_num_data]. lia. }
+  cbn [rt_reader r_hdr rt_hdr h_num_data h_size_data r_data_offsets r_data r_uds] in *.
+  assert (Hz' : znth (offsets_from blens 0) (zlen pre) = Some (sum_z (bl pre))).
+  { unfold blens. rewrite HS, map_app. cbn [map]. unfold bl.
+    rewrite <- (zlen_map (fun s0 : bytes * Z => zlen (fst s0)) pre). rewrite znth_offsets_from. f_equal. }
+  rewrite Hz' in Hz. inversion Hz; subst off. clear Hz.
+  assert (Hsd : rt_sd = sum_z (bl pre) + zlen (fst s) + sum_z (bl post)).
+  { unfold rt_sd, blens. rewrite HS, map_app, sum_z_app. cbn [map]. unfold sum_z at 2. cbn [fold_right].
+    fold (sum_z (map (fun s0 : bytes * Z => zlen (fst s0)) post)). unfold bl. lia. }
+  assert (Hl : len = zlen (fst s)).
+  { destruct post as [|s2 post].
+    - change (zlen (@nil (bytes * Z))) with 0 in HlS.
+      replace (zlen pre <? zlen stored - 1) with false in Hnext by (symmetry; apply Z.ltb_ge; lia).
+      change (sum_z (bl [])) with 0 in Hsd. lia.
+    - rewrite zlen_cons in HlS. pose proof (zlen_nonneg post).
+      replace (zlen pre <? zlen stored - 1) with true in Hnext by (symmetry; apply Z.ltb_lt; lia).
+      assert (Hz2 : znth (offsets_from blens 0) (zlen pre + 1) = Some (sum_z (bl (pre ++ [s])))).
+      { unfold blens. replace stored with ((pre ++ [s]) ++ s2 :: post) by (rewrite <- app_assoc; symmetry; exact HS).
+        rewrite map_app. cbn [map]. unfold bl.
+        replace (zlen pre + 1) with (zlen (map (fun s0 : bytes * Z => zlen (fst s0)) (pre ++ [s]))) by (rewrite zlen_map, zlen_app, zlen_cons, zlen_nil; lia).
+        rewrite znth_offsets_from. f_equal. }
+      rewrite Hz2 in Hnext. inversion Hnext as [Hn]. unfold bl in Hn. rewrite map_app, sum_z_app in Hn. cbn [map] in Hn.
+      unfold sum_z at 2 in Hn. cbn [fold_right] in Hn. unfold bl. lia. }
+  subst len. cbv zeta in Hrd.
+  assert (Hraw : firstn (Z.to_nat (zlen (fst s))) (skipn (Z.to_nat (sum_z (bl pre))) (flat_map fst stored)) = fst s).
+  { rewrite HS, flat_map_app. cbn [flat_map]. rewrite <- zlen_flat_fst. rewrite skipn_zlen_app. apply firstn_zlen_app. }
+  rewrite Hraw in Hrd. destruct (4 <=? ver).
+  - destruct Hrd as (u & Hzu & _ & Hrd). 
+    assert (Hzu' : znth (map snd stored) (zlen pre) = Some (snd s)).
+    { rewrite HS, map_app. cbn [map]. rewrite <- (zlen_map snd pre). apply znth_app_r. }
+    rewrite Hzu' in Hzu. inversion Hzu; subst u. exact Hrd.
+  - exact Hrd.
+Qed.
+
 End Roundtrip.
+
+(* ---------- the statement over serialize (compress as a parameter) ---------- *)
+Lemma zcase_ok d : zcase (zlen d) (ZOk d) = Ok d.
+Proof. cbn. rewrite Z.eqb_refl. reflexivity. Qed.
+
+Theorem wellformed_roundtrip compress uncompress ver crude gs datas :
+  ver = 3 \/ ver = 4 -> wf_input compress ver gs datas = true ->
+  (ver = 4 -> forall d, In d datas -> uncompress (zlen d) (compress d) = ZOk d) ->
+  exists r, reader_new (serialize compress ver crude gs datas) = Ok r
+    /\ r_version r = (if ver =? 3 then V3 else if crude && negb (zlen datas =? 0) then V4Crude else V4)
+    /\ (exists vs, items r = Ok vs /\ map view_triple vs = titems gs /\ Forall (view_inside r) vs)
+    /\ num_data r = Ok (zlen datas)
+    /\ (forall pre d post, datas = pre ++ d :: post -> read_data uncompress r (zlen pre) = Ok d).
+Proof.
+  intros Hver Hwf Hunc. unfold wf_input in Hwf.
+  repeat (apply andb_true_iff in Hwf; destruct Hwf as [Hwf ?]).
+  rename H into Hsz, H0 into Hdl, H1 into Hcb, H2 into Hdb, H3 into Hasc. apply Z.leb_le in Hsz.
+  set (stored := stored_of compress ver datas) in *.
+  assert (Hst : Forall (fun s : bytes * Z => 0 <= snd s <= i32_max) stored).
+  { unfold stored, stored_of. apply Forall_forall. intros s Hs. apply in_map_iff in Hs. destruct Hs as (d & <- & Hd).
+    cbn [snd]. rewrite forallb_forall in Hdl. specialize (Hdl d Hd). apply Z.leb_le in Hdl. pose proof (zlen_nonneg d). lia. }
+  assert (Hstb : Forall (fun s : bytes * Z => bytes_ok (fst s) = true) stored).
+  { unfold stored, stored_of. apply Forall_forall. intros s Hs. apply in_map_iff in Hs. destruct Hs as (d & <- & Hd).
+    cbn [fst]. rewrite forallb_forall in Hcb, Hdb. destruct (4 <=? ver); auto. }
+  exists (rt_reader ver crude gs stored). unfold serialize. fold stored.
+  assert (Hzs : zlen stored = zlen datas) by (unfold stored, stored_of; apply zlen_map).
+  split; [apply reader_new_serialized; assumption|].
+  split; [cbn [rt_reader r_version]; unfold rt_version; rewrite Hzs; reflexivity|].
+  split; [apply items_rt; assumption|].
+  split.
+  { unfold num_data. cbn [rt_reader r_hdr rt_hdr h_num_data]. rewrite assert_usize_ok by apply zlen_nonneg. rewrite Hzs. reflexivity. }
+  intros pre d post Hd.
+  assert (HS : stored = stored_of compress ver pre ++ (if 4 <=? ver then compress d else d, zlen d) :: stored_of compress ver post).
+  { unfold stored, stored_of. rewrite Hd, map_app. reflexivity. }
+  pose proof (read_data_rt ver crude gs stored Hver Hwf Hasc Hsz Hst Hstb uncompress _ _ _ HS) as Hrd.
+  replace (zlen (stored_of compress ver pre)) with (zlen pre) in Hrd by (unfold stored_of; symmetry; apply zlen_map).
+  rewrite Hrd. cbn [fst snd]. destruct Hver as [-> | ->]; cbn [Z.leb Z.compare Pos.compare Pos.compare_cont].
+  - reflexivity.
+  - rewrite Hunc; [apply zcase_ok|reflexivity|]. rewrite Hd. apply in_or_app. right. left. reflexivity.
+Qed.
